@@ -2,8 +2,9 @@
 
 Correspondence: for every family of harness/fam_c02.py the formula built by cnfgen (classes CNF and
 OPB) is compared with the formula of the extracted Coq model (coq/Fam_*.v) on the same graph and
-parameters: number of variables, canonical clause set (sorted set of sorted clauses; the ordered
-lists are compared too and an order-only difference is a note), OPB constraint list in order.
+parameters: number of variables, canonical clause set (sorted set of sorted clauses) and canonical
+OPB constraint multiset; the ordered lists are compared too and an order-only difference is a
+note, not a violation (cnf_sat / opb_sat are conjunctions: SemFacts.cnf_sat_set_ext).
 The theorems of coq/Prop_C02.v are about the model's formulas.
 
 When model and implementation differ, the implementation's formula is evaluated on all assignments
@@ -137,6 +138,11 @@ def canon(clauses):
     return sorted(set(tuple(sorted(c)) for c in clauses))
 
 
+def canon_opb(constraints):
+    """order-insensitive form of a constraint list (opb_sat is a conjunction of sums)"""
+    return sorted((tuple(sorted(c[:-2])), c[-2], c[-1]) for c in constraints)
+
+
 def opb_py(constraints):
     """model reply ((coeff lit) ...) op deg  ->  cnfgen's list form"""
     return [[tuple(t) for t in c[0]] + [c[1], c[2]] for c in constraints]
@@ -172,8 +178,11 @@ def agrees(impl, rep):
         return False, 'number of variables: implementation %d (CNF) / %d (OPB), model %d' % (impl[1], impl[3], nv)
     if canon(impl[2]) != canon(cl):
         return False, 'clause sets differ'
-    if impl[4] != opb_py(opb):
-        return False, 'OPB constraint lists differ'
+    mo = opb_py(opb)
+    if impl[4] != mo:
+        if canon_opb(impl[4]) != canon_opb(mo):
+            return False, 'OPB constraint sets differ'
+        return True, 'order'
     if impl[2] != cl:
         return True, 'order'
     return True, 'exact'
@@ -255,6 +264,7 @@ def run(ctx):
     import_impl()
     quick = ctx.tier == 'quick'
     deferred = []   # known-class reports: (has_failing_input, args for ctx.violation)
+    order_notes = {}
     for fam in fam_c02.FAMILIES:
         name = fam['name']
         site = fam['site']
@@ -293,7 +303,7 @@ def run(ctx):
                                     theorem='Prop_C02: ramlb_refuted / iso_nontrivial_ignored'),
                         found=why is not None, site=cls_known[0], cls=cls_known[1])))
             if ok and detail == 'order':
-                ctx.note('%s: clause ORDER differs from the model on %s (same clause set)' % (name, short(p, 200)))
+                order_notes.setdefault(name, [0, p])[0] += 1
             if not ok:
                 ctx.disagreements_checked += 1
                 if impl[0] == 'exc' and not (isinstance(rep, list) and rep and rep[0] == 'raises'):
@@ -322,6 +332,9 @@ def run(ctx):
                         continue    # already reported above with its failing input
                     ctx.violation('counterexample', 'semantic test: the formula of %s does not mean the documented property' % site,
                                   dict(input=dict(family=name, params=p), failure=why), True, site=site, cls='semantics')
+    for name, (cnt, p) in sorted(order_notes.items()):
+        ctx.note('%s: clause/constraint ORDER differs from the model on %d instance(s), e.g. %s (same set: not a violation)'
+                 % (name, cnt, short(p, 200)))
     # known-class reports: the ones that carry a failing input first
     for _, v in sorted(deferred, key=lambda t: not t[0]):
         ctx.violation(v['kind'], v['what'], v['replay'], v['found'], site=v['site'], cls=v['cls'])
